@@ -23,7 +23,7 @@ Units      == {"module", "program", "sub", "fun"} \cap UnitKinds
 ProcKinds  == {"sub", "fun"}
 SpecScopes == {"module", "program", "sub", "fun", "ibody"}     \* have a specification part
 Constructs == {"block", "do", "if", "select", "associate", "where"} \cap ConstructKinds
-IfaceKinds == {"iface_named", "iface_abstract"}
+IfaceKinds == {"iface_named", "iface_abstract", "iface_op"}
 
 VARIABLES stack,    \* open scopes: [kind, name, sline, phase, flags]
           closed,   \* finished scopes
@@ -43,7 +43,7 @@ Emit(st) == prog' = Append(prog, st @@ [ln |-> Line, depth |-> Depth])
 
 Push(kind, nm, ph) ==
   stack' = Append(stack, [kind |-> kind, name |-> nm, sline |-> Line, phase |-> ph,
-                          implicitNone |-> FALSE, nproc |-> 0, needProc |-> FALSE, nbody |-> 0])
+                          implicitNone |-> FALSE, nproc |-> 0, needProc |-> FALSE, nbody |-> 0, uses |-> {}])
 SetTop(f) == stack' = [stack EXCEPT ![Depth] = f]
 TopUnit == IF Depth = 0 THEN <<>> ELSE stack[1].name
 
@@ -51,7 +51,8 @@ Container(d) == IF d >= 2 THEN stack[1].name ELSE <<>>
 Pop ==
   /\ closed' = closed \cup {[kind |-> Top.kind, name |-> Top.name, sline |-> Top.sline, eline |-> Line,
                              depth |-> Depth, container |-> Container(Depth),
-                             parent |-> IF Depth >= 2 THEN stack[Depth - 1].name ELSE <<>>]}
+                             parent |-> IF Depth >= 2 THEN stack[Depth - 1].name ELSE <<>>,
+                             uses |-> Top.uses]}
   /\ stack' = IF Depth >= 2 /\ Top.kind \in ProcKinds
               THEN [SubSeq(stack, 1, Depth - 1) EXCEPT ![Depth - 1].nproc = @ + 1]
               ELSE SubSeq(stack, 1, Depth - 1)
@@ -72,7 +73,8 @@ UseStmt(m) ==
   /\ Bounded /\ Depth > 0 /\ Top.kind \in SpecScopes /\ Top.phase = 0
   /\ m \in ClosedModules
   /\ Emit([op |-> "use", kind |-> "use", name |-> m])
-  /\ UNCHANGED <<stack, closed>> /\ Same
+  /\ SetTop([Top EXCEPT !.uses = @ \cup {m}])
+  /\ UNCHANGED closed /\ Same
 
 ImplicitNone ==
   /\ Bounded /\ Depth > 0 /\ Top.kind \in SpecScopes /\ Top.phase <= 1
@@ -87,11 +89,36 @@ Decl ==
   /\ Emit([op |-> "decl", kind |-> IF Top.kind = "type" THEN "component" ELSE "var", name |-> Name("v")])
   /\ UNCHANGED closed /\ Same
 
+\* derived types accessible in the innermost specification scope: public types of modules USEd by an
+\* enclosing scope, and types already completed in an enclosing scope of the same unit
+\* USE association is transitive through modules that re-export what they use (default PUBLIC)
+ModUses(m) == UNION {c.uses : c \in {x \in closed : x.kind = "module" /\ x.depth = 1 /\ x.name = m}}
+Step(S) == S \cup UNION {ModUses(m) : m \in S}
+Reach(S) == Step(Step(Step(Step(S))))
+UsedMods == Reach(UNION {stack[i].uses : i \in 1..Depth})
+TypesVisible ==
+  {c.name : c \in {x \in closed : x.kind = "type" /\ x.depth = 2 /\ x.container \in UsedMods}}
+  \cup {c.name : c \in {x \in closed : x.kind = "type" /\ \E i \in 1..Depth : x.depth = i + 1 /\ x.parent = stack[i].name
+                                          /\ x.sline > stack[i].sline}}
+DeclTyped(t) ==
+  /\ Bounded /\ Depth > 0 /\ Top.kind \in SpecScopes \ {"ibody"} /\ Top.phase <= 2 /\ t \in TypesVisible
+  /\ SetTop([Top EXCEPT !.phase = 2])
+  /\ Emit([op |-> "decl", kind |-> "typedvar", name |-> Name("v"), tname |-> t])
+  /\ UNCHANGED closed /\ Same
+\* PROCEDURE(iface), POINTER :: p  - a declaration, not a procedure definition
+IbodiesHere == {c.name : c \in {x \in closed : x.kind = "ibody" /\ x.depth = Depth + 2 /\ x.sline > Top.sline
+                    /\ \E y \in closed : y.kind = "iface_abstract" /\ y.sline < x.sline /\ x.eline < y.eline /\ y.depth = Depth + 1}}
+DeclProcPtr(ib) ==
+  /\ Bounded /\ Depth > 0 /\ Top.kind \in {"module", "program", "sub", "fun"} /\ Top.phase <= 2 /\ ib \in IbodiesHere
+  /\ SetTop([Top EXCEPT !.phase = 2])
+  /\ Emit([op |-> "decl", kind |-> "procptr", name |-> Name("pp"), tname |-> ib])
+  /\ UNCHANGED closed /\ Same
+
 OpenType ==
   /\ Bounded /\ Depth > 0 /\ Depth < MaxDepth /\ Top.kind \in SpecScopes \ {"ibody"} /\ Top.phase <= 2
   /\ stack' = Append([stack EXCEPT ![Depth].phase = 2],
                      [kind |-> "type", name |-> Name("t"), sline |-> Line, phase |-> 2,
-                      implicitNone |-> FALSE, nproc |-> 0, needProc |-> FALSE, nbody |-> 0])
+                      implicitNone |-> FALSE, nproc |-> 0, needProc |-> FALSE, nbody |-> 0, uses |-> {}])
   /\ Emit([op |-> "open", kind |-> "type", name |-> Name("t")])
   /\ UNCHANGED closed /\ Same
 
@@ -112,16 +139,16 @@ OpenIface(k) ==
   /\ Bounded /\ Depth > 0 /\ Depth < MaxDepth /\ k \in IfaceKinds
   /\ Top.kind \in SpecScopes \ {"ibody"} /\ Top.phase <= 2
   /\ stack' = Append([stack EXCEPT ![Depth].phase = 2],
-                     [kind |-> k, name |-> IF k = "iface_named" THEN Name("g") ELSE <<>>, sline |-> Line, phase |-> 0,
-                      implicitNone |-> FALSE, nproc |-> 0, needProc |-> FALSE, nbody |-> 0])
-  /\ Emit([op |-> "open", kind |-> k, name |-> IF k = "iface_named" THEN Name("g") ELSE <<>>])
+                     [kind |-> k, name |-> IF k = "iface_named" THEN Name("g") ELSE IF k = "iface_op" THEN Name("o") ELSE <<>>, sline |-> Line, phase |-> 0,
+                      implicitNone |-> FALSE, nproc |-> 0, needProc |-> FALSE, nbody |-> 0, uses |-> {}])
+  /\ Emit([op |-> "open", kind |-> k, name |-> IF k = "iface_named" THEN Name("g") ELSE IF k = "iface_op" THEN Name("o") ELSE <<>>])
   /\ UNCHANGED closed /\ Same
 
 OpenIbody(pk) ==
-  /\ Bounded /\ Depth > 0 /\ Depth < MaxDepth /\ Top.kind \in IfaceKinds /\ Top.nbody = 0
+  /\ Bounded /\ Depth > 0 /\ Depth < MaxDepth /\ Top.kind \in IfaceKinds \ {"iface_op"} /\ Top.nbody = 0
   /\ stack' = Append([stack EXCEPT ![Depth].nbody = 1],
                      [kind |-> "ibody", name |-> Name(pk), sline |-> Line, phase |-> 0,
-                      implicitNone |-> FALSE, nproc |-> 0, needProc |-> FALSE, nbody |-> 0])
+                      implicitNone |-> FALSE, nproc |-> 0, needProc |-> FALSE, nbody |-> 0, uses |-> {}])
   /\ Emit([op |-> "open", kind |-> "ibody", name |-> Name(pk), pk |-> pk])
   /\ UNCHANGED closed /\ Same
 
@@ -138,7 +165,7 @@ OpenConstruct(k) ==
      \/ Top.kind \in Constructs \ {"where", "select"}
   /\ stack' = Append(IF Top.kind \in Constructs THEN stack ELSE [stack EXCEPT ![Depth].phase = 3],
                      [kind |-> k, name |-> <<>>, sline |-> Line, phase |-> 3,
-                      implicitNone |-> FALSE, nproc |-> 0, needProc |-> FALSE, nbody |-> 0])
+                      implicitNone |-> FALSE, nproc |-> 0, needProc |-> FALSE, nbody |-> 0, uses |-> {}])
   /\ Emit([op |-> "open", kind |-> k, name |-> <<>>])
   /\ UNCHANGED closed /\ Same
 
@@ -159,10 +186,10 @@ OpenProc(pk) ==
 
 \* END: bare / with keyword / with keyword and name (the renderer picks per `form`)
 EndForms(k) == IF k \in {"module", "program", "sub", "fun", "ibody"} THEN {"bare", "kind", "kindName"}
-               ELSE IF k \in {"type", "iface_named"} THEN {"kind", "kindName"} ELSE {"kind"}
+               ELSE IF k \in {"type", "iface_named", "iface_op"} THEN {"kind", "kindName"} ELSE {"kind"}
 ValidEnd == /\ Top.kind = "module" => (Top.needProc => Top.nproc > 0)     \* bindings resolve
             /\ Top.kind \in {"module", "program", "sub", "fun"} /\ Top.phase = 4 => Top.nproc > 0  \* CONTAINS is followed by a procedure
-            /\ Top.kind \in IfaceKinds => Top.nbody > 0
+            /\ Top.kind \in IfaceKinds \ {"iface_op"} => Top.nbody > 0
 End(form) ==
   /\ Bounded /\ Depth > 0 /\ form \in EndForms(Top.kind) /\ ValidEnd
   /\ Pop /\ Emit([op |-> "end", kind |-> Top.kind, name |-> Top.name, form |-> form])
@@ -255,7 +282,7 @@ HiddenTypes == {c.name : c \in {x \in closed : x.kind = "type" /\ x.depth = 2 /\
 TypeNotAccessible(t) ==
   /\ Bounded /\ defects = 0 /\ Depth = 1 /\ Top.kind \in {"module", "program", "sub", "fun"} /\ Top.phase <= 2
   /\ t \in HiddenTypes
-  /\ ~\E j \in 1..Len(prog) : prog[j].op = "use" /\ prog[j].ln > Top.sline
+  /\ \A c \in closed : (c.kind = "type" /\ c.name = t) => c.container \notin Reach(Top.uses)
   /\ SetTop([Top EXCEPT !.phase = 2])
   /\ Emit([op |-> "decl", kind |-> "typedvar", name |-> Name("v"), tname |-> t]) /\ Diag("TypeNotAccessible", 1, {Line})
   /\ UNCHANGED closed
@@ -269,6 +296,8 @@ ValidStmt ==
   \/ \E k \in Units : OpenUnit(k)
   \/ \E m \in ClosedModules : UseStmt(m)
   \/ ImplicitNone \/ Decl \/ OpenType \/ TypeContains \/ Binding
+  \/ \E t \in TypesVisible : DeclTyped(t)
+  \/ \E ib \in IbodiesHere : DeclProcPtr(ib)
   \/ \E k \in IfaceKinds : OpenIface(k)
   \/ \E pk \in ProcKinds : OpenIbody(pk)
   \/ Exec
@@ -304,6 +333,19 @@ Spec == Init /\ [][Next]_vars
 SpecValid  == Init /\ [][ValidStmt]_vars
 SpecDefect == Init /\ [][ValidStmt \/ DefectStmt]_vars
 SpecRobust == Init /\ [][RobustStmt]_vars
+\* focus generator: derived-type accessibility across several scopes of one file
+TypeFocus == \/ \E k \in {"module", "sub"} : OpenUnit(k)
+             \/ \E m \in ClosedModules : UseStmt(m)
+             \/ \E t \in TypesVisible : DeclTyped(t)
+             \/ OpenType \/ End("kind")
+             \/ \E t \in HiddenTypes : TypeNotAccessible(t)
+SpecTypes == Init /\ [][TypeFocus]_vars
+\* focus generator: PROCEDURE(iface) declarations next to CONTAINS'ed procedures
+ProcFocus == \/ \E k \in {"module", "program"} : OpenUnit(k)
+             \/ OpenIface("iface_abstract") \/ OpenIbody("sub") \/ End("kind")
+             \/ \E ib \in IbodiesHere : DeclProcPtr(ib)
+             \/ ContainsStmt \/ OpenProc("sub") \/ Decl
+SpecProcs == Init /\ [][ProcFocus]_vars
 
 (* ---- properties --------------------------------------------------------- *)
 Complete == stack = <<>> /\ prog # <<>>
